@@ -680,3 +680,134 @@ Definition resv_approxb (a b : res vec) : bool := res_eqb vapproxb a b.
 Definition resvl_approxb (a b : res (list vec)) : bool := res_eqb vlist_approxb a b.
 Definition respf_eqb (a : res Q * nat) (phi : res Q) (w : nat) : bool :=
   resq_approxb (fst a) phi && Nat.eqb (snd a) w.
+
+(* ====================================================================================================
+   Deepening round 2: outlets aliased with the feed, material_balance(balance='composition')
+   ==================================================================================================== *)
+
+(* ---------- partition(feed, top, bottom, ...) when one outlet IS the feed object ----------
+   separations.py:547-574.  feed_mol = feed.mol is a reference to the live flow vector, mol = feed.imol[IDs] is a copy
+   taken before anything is written.  bot_is_feed = false: top is feed; true: bottom is feed.  [o0]: what the other
+   outlet held.  Every read of feed.imol after a write sees the written data ([live1]); the last statement
+   top.mol[:] = feed_mol - bottom.mol reads the live vector. *)
+Definition partition_alias (pf : vec -> vec -> Q -> Q -> Q) (bot_is_feed : bool) (feed o0 : vec) (ids : list nat)
+           (K : vec) (topc botc : list nat) (strict : bool) : pres :=
+  let mol := gather feed ids in
+  let F0 := qsum mol in
+  let top0 := if bot_is_feed then o0 else feed in
+  let bot0 := if bot_is_feed then feed else o0 in
+  let '(top1, bot1, Fa) := forced feed top0 bot0 topc in
+  let live1 := if bot_is_feed then bot1 else top1 in
+  let '(bot2, top2, Fb) := forced live1 bot1 top1 botc in
+  let F := F0 + (Fa + Fb) in
+  if qzerob F then mkP top2 bot2 (Err EZeroDiv) 0 else
+  let z := vdivs mol F in
+  let phi := pf z K (Fa / F) (Fb / F) in
+  let fin (bot3 : vec) := vsub (if bot_is_feed then bot3 else top2) bot3 in
+  if qleb phi 0 then
+    let bot3 := scatter bot2 ids mol in
+    mkP (fin bot3) bot3 (Ok 0) 0
+  else if qltb phi 1 then
+    if existsb qzerob (map (fun k => phi * k + (1 - phi)) K) then mkP top2 bot2 (Err EZeroDiv) 0 else
+    let c := handle_infeasible (bottom_flows z K phi F) mol strict in
+    match c_err c with
+    | Some e => mkP top2 bot2 (Err e) 0
+    | None =>
+      let bot3 := scatter bot2 ids (c_arr c) in
+      mkP (fin bot3) bot3 (Ok phi) (c_warns c)
+    end
+  else
+    let bot3 := scatter_c bot2 ids 0 in
+    mkP (fin bot3) bot3 (Ok 1) 0.
+
+(* ---------- lle(feed, top, bottom, ...) when one outlet IS the feed object ----------
+   separations.py:641-663.  The equilibrium runs on a copy (feed.copy() / multi_stream.copy_like(feed)), so the rows do
+   not depend on the aliasing; top.mol[:] = ..., bottom.mol[:] = ... overwrite the feed; with efficiency < 1 the
+   statement mixing = (1 - efficiency) / 2 * feed.mol reads the feed AFTER top.mol *= efficiency; bottom.mol *= efficiency. *)
+Definition lle_wrap_alias (rho : vec -> option Q) (eq : vec -> vec * vec) (extra : nat) (bot_is_feed : bool)
+           (feed o0 : vec) (topchem : bool) (eff : Q) : eqres :=
+  let '(rowL, rowl) := eq feed in
+  if negb (Nat.eqb extra 0)
+  then mkE (if bot_is_feed then o0 else feed) (if bot_is_feed then feed else o0) (Some EValue) else
+  let swap := top_is_l rho rowL rowl topchem in
+  let top := if swap then rowl else rowL in
+  let bottom := if swap then rowL else rowl in
+  if qltb eff 1 then
+    let top1 := vscale eff top in
+    let bot1 := vscale eff bottom in
+    let mixing := vscale ((1 - eff) / 2) (if bot_is_feed then bot1 else top1) in
+    mkE (vadd top1 mixing) (vadd bot1 mixing) None
+  else mkE top bottom None.
+
+Definition lle_ms_alias (rho : vec -> option Q) (eqr : list vec -> vec * vec) (extra : nat) (ms0 : list vec) (k : nat)
+           (bot_is_feed : bool) (feed o0 : vec) (topchem : bool) (eff : Q) : eqres :=
+  lle_wrap_alias rho (fun f => eqr (ms_after_copy ms0 k f)) extra bot_is_feed feed o0 topchem eff.
+
+(* ---------- material_balance(balance='composition') ----------  separations.py:831-868
+   The linear solver is called once per pass of the while loop: [solve k A b] is its answer in pass k (an oracle).
+   x_guess starts as ones (one per chemical ID; A_ * x_guess needs as many inlets as IDs).  The loop is modelled with
+   fuel; running out of fuel is reported as Err ERuntime (the Python loop would still be running).
+   The result carries the right-hand sides handed to the solver (compared with the recorded ones). *)
+Definition conv_tol : Q := 4722366482869645 # 4722366482869645213696.       (* the float 1e-6 *)
+
+Definition qmin_list (v : vec) : Q :=
+  match v with [] => 0 | x :: r => fold_left (fun a b => if qltb b a then b else a) r x end.
+
+(* infeasibles = x_new < 0.; if infeasibles.any(): x_new -= x_new[infeasibles].min() *)
+Definition shift_feasible (x : vec) : vec :=
+  if existsb (fun a => qltb a 0) x then map (fun a => a - qmin_list x) x else x.
+
+(* sum(((x_new - x_guess)/denominator)**2), denominator = x_guess with zeros replaced by one *)
+Definition conv_measure (xn xg : vec) : Q :=
+  qsum (map2 (fun a g => let d := if qzerob g then 1 else g in ((a - g) / d) * ((a - g) / d)) xn xg).
+
+(* (A_ * x_guess).sum(): every chemical of every variable inlet *)
+Definition mix_total (vin : list vec) (x : vec) : Q := qsum (map2 (fun s f => f * qsum s) vin x).
+
+Definition comp_f (n : nat) (ids : list nat) (cout : list vec) : vec :=
+  let mol_out := vsum n cout in
+  let Fo := qsum mol_out in
+  gather (if qzerob Fo then mol_out else vdivs mol_out Fo) ids.
+
+Definition comp_O (n : nat) (ids : list nat) (cin cout : list vec) : vec :=
+  let g_ := vsum n cin in
+  vsub (vscale (qsum g_) (comp_f n ids cout)) (gather g_ ids).
+
+Definition comp_b (n : nat) (ids : list nat) (vin cin cout : list vec) (xg : vec) : vec :=
+  vadd (vscale (mix_total vin xg) (comp_f n ids cout)) (comp_O n ids cin cout).
+
+Fixpoint comp_loop (solve : nat -> list vec -> vec -> res vec) (A : list vec) (n : nat) (ids : list nat)
+         (vin cin cout : list vec) (xg : vec) (k fuel : nat) (bs : list vec) : res (vec * list vec) :=
+  match fuel with
+  | O => Err ERuntime
+  | S fuel' =>
+    let b := comp_b n ids vin cin cout xg in
+    do x <- solve k A b;
+    let xn := shift_feasible x in
+    if qltb conv_tol (conv_measure xn xg)
+    then comp_loop solve A n ids vin cin cout xn (S k) fuel' (bs ++ [b])
+    else Ok (xn, bs ++ [b])
+  end.
+
+Definition material_balance_comp (solve : nat -> list vec -> vec -> res vec) (n : nat) (ids : list nat)
+           (vin cin cout : list vec) (fuel : nat) : res (list vec * list vec) :=
+  match vin with
+  | [] => Err EValue
+  | _ =>
+    match cout with
+    | [] => Err EOther                                         (* sum([]) = 0 has no .to_array() *)
+    | _ =>
+      match cin with
+      | [] => Err EType                                        (* g_ = sum([]) = 0; g_[index]: TypeError *)
+      | _ =>
+        if negb (Nat.eqb (length vin) (length ids)) then Err EValue else    (* A_ * x_guess does not broadcast *)
+        do r <- comp_loop solve (mb_matrix ids vin) n ids vin cin cout (map (fun _ => 1) ids) 0 fuel [];
+        Ok (scale_zip (fst r) vin, snd r)
+      end
+    end
+  end.
+
+Definition comp_res_eqb (r : res (list vec * list vec)) (vin' bs : list vec) : bool :=
+  match r with Ok (v, b) => vlist_approxb v vin' && vlist_approxb b bs | Err _ => false end.
+Definition comp_err_eqb (r : res (list vec * list vec)) (e : err) : bool :=
+  match r with Err e' => err_eqb e e' | Ok _ => false end.
